@@ -139,6 +139,19 @@ theorem enumerated_attribute_domain (f : Forest) (d : Die) (p : Option Die) (a :
   simp only at hl
   simp [atValue, form_data a.form hw, dependent, hl, hv, atvalUnsignedDom, formudata, hw]
 
+/-- strides and scales may be negative: read as signed in every width, so that a fixed-size form and
+    sdata give the same number -/
+def signedAttributes : List Nat := [0x51, 0x2e, 0x5b, 0x5c]     -- byte_stride, bit_stride, binary_scale, decimal_scale
+
+theorem signed_table : ∀ a ∈ signedAttributes, atActs.lookup a = some .signed := by decide
+
+theorem signed_attribute_value (f : Forest) (d : Die) (p : Option Die) (a : DAttr) (k : Nat) (bits : Int)
+    (hs : a.name ∈ signedAttributes) (hw : dataWidth a.form = some k) (hv : a.num = some bits) :
+    atValue f d p a = ⟨.cst "dec" (signExtend k bits), false⟩ := by
+  have hl := signed_table _ hs
+  have hw' : (dataWidth a.form).isSome := by simp [hw]
+  simp [atValue, form_data a.form hw', dependent, hl, hv, atvalSigned, formsdata, hw]
+
 /-! ### DW_AT_const_value: signedness from the type -/
 
 theorem const_value_rule : atActs.lookup DW_AT_const_value = some .constValue := by decide
